@@ -949,7 +949,11 @@ func gen(g *hx.Gen) {
 					votes++
 				default:
 					if props > 0 {
-						txs = append(txs, fmt.Sprintf("rejvote:%d:%d:%d", votes, r.Intn(props), 1+r.Intn(100000)))
+						amt := 1 + r.Intn(100000)
+						if r.Chance(50) {
+							amt = 400000000000000 // above the public-vote rejection threshold (10 % of the circulation)
+						}
+						txs = append(txs, fmt.Sprintf("rejvote:%d:%d:%d", votes, r.Intn(props), amt))
 						votes++
 					}
 				}
